@@ -71,6 +71,12 @@ Definition opfun (tag : Z) : val -> val -> val :=
   | 0 => op_add
   | 1 => fun a b => VInt (Z.max (z_of a) (z_of b))
   | 2 => fun a b => VInt (Z.min (z_of a) (z_of b))
+  (* neither associative nor commutative: the bracketing and the order of the RDD operation matter *)
+  | 3 => fun a b => VInt (z_of a - z_of b)
+  | 4 => fun a b => VInt ((z_of a + z_of b) / 2)       (* Python // *)
+  | 5 => fun a _ => a
+  | 6 => fun _ b => b
+  | 7 => fun a b => VInt (2 * z_of a - z_of b)
   | _ => fun _ _ => bad
   end.
 
@@ -112,7 +118,7 @@ Definition twfun (tag : Z) : Z -> rv -> rv -> rv :=
 Definition opt_bind {A B : Type} (o : option A) (f : A -> option B) : option B :=
   match o with Some a => f a | None => None end.
 
-Fixpoint all_lists (l : list val) : option (list qentry) :=
+Fixpoint all_lists (l : list val) : option (list (option (list val))) :=
   match l with
   | [] => Some []
   | VList b :: l' => match all_lists l' with Some r => Some (Some b :: r) | None => None end
@@ -140,10 +146,23 @@ Definition dec_call (v : val) : option call :=
   | VTup [VInt 0; VList bs; VBool one; d] =>
       opt_bind (all_lists bs) (fun q =>
         match d with
-        | VNone => Some (CSource (SQueue one None q))
-        | VList dl => Some (CSource (SQueue one (Some dl) q))
+        | VNone => Some (CSource (SQueue one None (map (option_map (fun b => (b, None))) q)))
+        | VList dl => Some (CSource (SQueue one (Some (dl, None)) (map (option_map (fun b => (b, None))) q)))
         | _ => None
         end)
+  (* with presentation info: number of partitions of every entry / of the default that is handed over as
+     an RDD (0 = a plain iterable); the third component (kind of iterable, later mutation of the
+     caller's object) only concerns the harness *)
+  | VTup [VInt 0; VList bs; VBool one; d; VTup [VList eparts; VInt dpart; _]] =>
+      opt_bind (all_lists bs) (fun q => opt_bind (all_Z eparts) (fun ep =>
+        let np := fun k => if k =? 0 then None else Some k in
+        let q' := map (fun xb => option_map (fun b => (b, np (snd xb))) (fst xb))
+                      (combine q (ep ++ repeat 0 (length q))) in
+        match d with
+        | VNone => Some (CSource (SQueue one None q'))
+        | VList dl => Some (CSource (SQueue one (Some (dl, np dpart)) q'))
+        | _ => None
+        end))
   | VTup [VInt 1; VList d0; _] => opt_bind (all_names d0) (fun d => Some (CSource (SFile d)))
   | VTup [VInt 2; VInt s; VInt f] => Some (CMap (nat_of s) (efun f))
   | VTup [VInt 3; VInt s; VInt f] => Some (CFlatMap (nat_of s) (gfun f))
@@ -268,13 +287,30 @@ Fixpoint canon (v : val) : val :=
 Definition canon_contents (l : list val) : val := VList (sort_vals (map canon l)).
 
 (* ---------- running ---------- *)
-Definition obs_rv (a : rv) : val :=
+(* contents are reported in collect order, untouched, for the streams returned by calls whose result
+   order is determined by the RDD operations (no cogroup / fullOuterJoin, whose key order is that of a
+   Python set, among the call and its ancestors); canonically sorted (multiset) otherwise *)
+Definition contents_of (exact : bool) (l : list val) : val :=
+  if exact then VList l else canon_contents l.
+Definition obs_rv (exact : bool) (a : rv) : val :=
   match a with
   | RNone => VNone
-  | RRdd r => VTup [VBool (ecls r); VInt (nparts r); canon_contents (flat r)]
+  | RRdd r => VTup [VBool (ecls r); VInt (nparts r); contents_of exact (flat r)]
   end.
-Definition contents_rv (a : rv) : val :=
-  match a with RNone => VNone | RRdd r => canon_contents (flat r) end.
+Definition contents_rv (exact : bool) (a : rv) : val :=
+  match a with RNone => VNone | RRdd r => contents_of exact (flat r) end.
+
+Definition set_order (c : call) : bool :=
+  match c with CCogrouped OpCogroup _ _ _ | CCogrouped OpFullOuterJoin _ _ _ => true | _ => false end.
+Fixpoint ordered_from (p : list call) (prev : list bool) : list bool :=
+  match p with
+  | [] => prev
+  | c :: p' =>
+      ordered_from p' (prev ++ [negb (set_order c) && forallb (fun s => nth s prev false) (call_args c)])
+  end.
+(* nodes of the streams returned by ordered calls *)
+Definition exact_nodes (done : list call) (hs : list nat) : list nat :=
+  flat_map (fun bh : bool * nat => if fst bh then [snd bh] else []) (combine (ordered_from done []) hs).
 
 Definition zi (n : nat) : val := VInt (Z.of_nat n).
 
@@ -293,18 +329,19 @@ Definition nat_in (i : nat) (l : list nat) : bool := existsb (Nat.eqb i) l.
 
 (* the events of one callback, as a multiset (sorted): the order in which the callback walks the
    registered nodes is not part of the property *)
-Definition obs_events (g : graph) (sinks : list nat) (evs : list event) : val :=
+Definition obs_events (g : graph) (sinks exact : list nat) (evs : list event) : val :=
   VList (sort_vals (flat_map (fun e =>
     match e with
     | EvPop i => [VTup [VInt 0; zi i]]
     | EvFire i t args =>
         if is_cogrouped g i then []
-        else if nat_in i sinks then [VTup [VInt 2; zi i; VInt t; contents_rv (hd RNone args)]]
+        else if nat_in i sinks then [VTup [VInt 2; zi i; VInt t; contents_rv (nat_in i exact) (hd RNone args)]]
         else [VTup [VInt 1; zi i]]
     end) evs)).
 
-Definition obs_states (st : state) : val :=
-  VList (map (fun s => VTup [VInt (ctime s); obs_rv (crdd s)]) (ns st)).
+Definition obs_states (exact : list nat) (st : state) : val :=
+  VList (map (fun is => VTup [VInt (ctime (snd is)); obs_rv (nat_in (fst is) exact) (crdd (snd is))])
+             (combine (seq 0 (length (ns st))) (ns st))).
 
 Definition env_of (hs : list nat) (e : list (nat * listing)) : nat -> listing :=
   fun i => match find (fun hl => Nat.ltb (fst hl) (length hs) && Nat.eqb (nth (fst hl) hs O) i) e with
@@ -356,7 +393,8 @@ Fixpoint run_entries (rest done : list call) (g : graph) (hs : list nat) (h : li
       match do_tick g (env_of hs e) t o (mkSt (ns st) []) with
       | Some st' =>
           let '(obs, g2, hs2) := run_entries rest done g hs h' st' in
-          (VTup [obs_events g (sink_nodes done hs) (log st'); obs_states st'; obs_layouts done hs st' 0] :: obs, g2, hs2)
+          (VTup [obs_events g (sink_nodes done hs) (exact_nodes done hs) (log st');
+                 obs_states (exact_nodes done hs) st'; obs_layouts done hs st' 0] :: obs, g2, hs2)
       | None => ([VFuel], g, hs)
       end
   end.
